@@ -1,6 +1,7 @@
 package browser
 
 import (
+	"bytes"
 	"context"
 	"encoding/binary"
 	"fmt"
@@ -182,7 +183,8 @@ func (h Handler) packServers(servers []server.Server, addr *net.TCPAddr, fields 
 					Str("field", field).Stringer("server", svr.Addr).Stringer("src", addr).
 					Msg("Requested field is missing")
 			} else {
-				payload = append(payload, []byte(val)...)
+				// the value is NUL-terminated on the wire, so it cannot carry NUL bytes itself
+				payload = append(payload, bytes.ReplaceAll([]byte(val), []byte{0x00}, nil)...)
 			}
 			payload = append(payload, 0x00)
 		}
